@@ -765,9 +765,10 @@ example :
     whenever the documentation makes a promise (`documented v e = some d`), the validator
     returns exactly the verdict `d`, without raising, and calls `note_error` iff `d` is false —
     except for `HTTPURLValidator` on an element without a value that is promised False
-    (`HttpNoValue`, KF-C15-a). -/
+    (KF-C15-a) and the other open findings collected in `Spec.excluded` (KF-C15-c, -d: `required_parts`
+    entries the code reads differently from the docstring; KF-C15-g: `''` listed in `allowed_schemes`). -/
 theorem decides_partial (v : V) (e : View) (d : Bool) (hd : documented v e = some d)
-    (hk : HttpNoValue v e d = false) : Decides v e d := by
+    (hk : Excluded v e d = false) : Decides v e d := by
   cases v with
   | present => exact decides_present e d hd
   | isTrue => exact decides_isTrue e d hd
@@ -792,7 +793,7 @@ theorem decides_partial (v : V) (e : View) (d : Bool) (hd : documented v e = som
   | setWithAllFields => exact decides_setWithAllFields e d hd
   | luhn10 => exact decides_luhn10 e d hd
   | isEmail nl => exact decides_isEmail nl e d hd
-  | urlValidator s p => exact decides_urlValidator s p e d hd
+  | urlValidator s p => exact decides_urlValidator_partial s p e d hd hk
   | httpURL ap r f => exact decides_httpURL_partial ap r f e d hd hk
   | urlCanonicalizer ds => exact decides_urlCanonicalizer ds e d hd
 
@@ -809,13 +810,19 @@ def C15_Full : Prop :=
 
 /-- the strongest true restriction: everything but KF-C15-a -/
 theorem C15_partial :
-    ∀ (v : V) (e : View) (d : Bool), documented v e = some d → HttpNoValue v e d = false →
+    ∀ (v : V) (e : View) (d : Bool), documented v e = some d → Excluded v e d = false →
       Decides v e d := decides_partial
 
 /-- the full statement is false of the code as it is: `HTTPURLValidator()` on an element without
     a value returns True although the required scheme and hostname cannot be there (KF-C15-a) -/
 theorem C15_full_fails : ¬ C15_Full := fun h =>
   C15_HttpFull_fails (fun ap req forb e d hd => h _ e d hd)
+
+/-- … and stays false with KF-C15-a set aside: KF-C15-c (`C15_required_true_never_fails`) and
+    KF-C15-g (`C15_empty_scheme_always_blocked`) refute it on elements that hold a text -/
+theorem C15_full_fails_with_value :
+    ¬ (∀ (v : V) (e : View) (d : Bool), e.value ≠ .none → documented v e = some d → Decides v e d) :=
+  fun h => C15_HttpFull_fails_with_value (fun ap req forb e d hne hd => h _ e d hne hd)
 
 /-- witness of the fixed D-C15-7: `MapEqual` with its own default transform on two equal
     fields now returns True -/
@@ -839,8 +846,9 @@ theorem setWith_bad_pairs_valid (e : View) (h : e.raw = .badPairs) :
   simp [verdict, h]
 
 /-- **value_preserved**: apart from the canonicalising URL validator no validator changes the
-    element's value -/
-theorem value_preserved (v : V) (e : View) (h : ∀ ds, v ≠ .urlCanonicalizer ds) :
+    element's value — for the values the model follows the code on (`inModel`: `HTTPURLValidator`
+    on a text or no value; every other class on every value) -/
+theorem value_preserved (v : V) (e : View) (_hm : inModel v e = true) (h : ∀ ds, v ≠ .urlCanonicalizer ds) :
     valueAfter v e = e.value := by
   cases v <;> first | rfl | exact absurd rfl (h _)
 
@@ -949,7 +957,7 @@ theorem messages (table : List BuiltinMsg) (v : V) (e : View) (errors : List Str
     error list afterwards is the old one plus exactly the complete expansion `s` of the text
     chosen for that message — unless the very same text `s` was already recorded. -/
 theorem false_verdict_records_one (v : V) (e : View) (errors : List Str)
-    (hd : documented v e = some false) (hk : HttpNoValue v e false = false) :
+    (hd : documented v e = some false) (hk : Excluded v e false = false) :
     ∃ n o msg text segs s, verdict v e = .ok (false, some n) ∧
       messageOf Flatland.Generated.C16.builtinMessages v.className n.key = some msg ∧
       chooseMessage (envOf v e n.info) none msg = .ok text ∧
@@ -972,7 +980,7 @@ theorem false_verdict_records_one (v : V) (e : View) (errors : List Str)
 /-- a true verdict records nothing (corollary of `messages` + the note/verdict link) -/
 theorem true_verdict_records_nothing (table : List BuiltinMsg) (v : V) (e : View)
     (errors : List Str) (o : Outcome) (d : Bool)
-    (hd : documented v e = some d) (hk : HttpNoValue v e d = false)
+    (hd : documented v e = some d) (hk : Excluded v e d = false)
     (h : runWith table v e errors = .ok o) (ht : o.verdict = true) :
     o.errors = errors := by
   obtain ⟨note, hv, _, hnone, _⟩ := messages table v e errors o h
